@@ -171,6 +171,9 @@ func parsePacketAdaptationField(i *astikit.BytesIterator) (a *PacketAdaptationFi
 	// Length
 	a.Length = int(b)
 
+	// An adaptation field length of 0 is a single stuffing byte
+	a.IsOneByteStuffing = a.Length == 0
+
 	afStartOffset := i.Offset()
 
 	// Valid length
